@@ -280,6 +280,11 @@ class Engine:
                 if isinstance(node, ast.AnnAssign) and isinstance(node.target, ast.Attribute) and isinstance(node.target.value, ast.Name) \
                         and node.target.value.id == "self" and node.target.attr == field:
                     ty = self._ann_type(node.annotation)
+                    idk = getattr(shape, "auto_str_key", None)     # in this class plain `str` keys are invocation ids (an atom in the contracts)
+                    if idk is not None and isinstance(ty, MapT) and ty.key == STR:
+                        ty = MapT(idk, ty.val)
+                    elif idk is not None and isinstance(ty, SetT) and ty.elem == STR:
+                        ty = SetT(idk)
                     if ty is not None:
                         shape.fields[field] = ty
                         shape.dont_care = getattr(shape, "dont_care", set()) | {field}
